@@ -59,6 +59,13 @@ func zzC03x(n int, percent, sharedVariants bool, notReadyAs string) {
 		ds.Spec.Strategy.RollingUpdate.SlowStartAdditiveIncrease = &ten
 	}
 	rs := zzReplicaSet()
+	// the status the previous sync stored (the strategy starts from a copy of it) is arbitrary: counters
+	// of an earlier sync — stuck nodes that have recovered since included — must not leak into this one
+	rs.Status.Desired = nondet.Int32("prev.desired", 0, 1000)
+	rs.Status.Current = nondet.Int32("prev.current", 0, 1000)
+	rs.Status.Ready = nondet.Int32("prev.ready", 0, 1000)
+	rs.Status.Available = nondet.Int32("prev.available", 0, 1000)
+	rs.Status.IgnoredUnresponsiveNodes = nondet.Int32("prev.ignoredUnresponsiveNodes", 0, 1000)
 	// concrete shape: categories fork here
 	for i := range cats {
 		cats[i] = int(nondetConc(cats[i]))
